@@ -164,6 +164,7 @@ class Sched:
     """knobs: stick, p_time, J (starvation bound), bias {role: weight}, max_steps."""
 
     POLL_N = 200
+    SPIN_N = 20000      # scheduler steps at one virtual instant: a task spins without ever blocking
 
     def __init__(self, decisions, knobs=None):
         k = dict(stick=0.5, p_time=0.05, J=0.05, bias={}, max_steps=200000, line_q=0.0)
@@ -196,6 +197,8 @@ class Sched:
         self._jumpsigs = collections.deque(maxlen=16)
         self._same_jumps = 0
         self.leaked_threads = 0
+        self.last_advance_step = 0
+        self.spinning = None
         self.task_errors = []
         self.harness_error = None
 
@@ -295,6 +298,10 @@ class Sched:
                 return self._finish("step_cap")
             if self.harness_error:
                 return self._finish("harness_error")
+            if self.steps - self.last_advance_step > self.SPIN_N:
+                busy = max(self.live, key=lambda t: t.nops - getattr(t, "_nops_mark", 0), default=None) if False else None
+                self.spinning = [t.tid for t in self.live if t.state == RUNNABLE]
+                return self._finish("livelock")
             en, timed = self._enabled()
             for t in en:
                 if t.killed:      # unwinding has no semantics: do it first
@@ -367,6 +374,8 @@ class Sched:
                 self.fast_forwards += 1
             self._same_jumps = 0
             self._jumpsigs.clear()
+        if d > self.now:
+            self.last_advance_step = self.steps
         self.now = max(self.now, d)
         for i in woken:
             self.tasks[i].opsig = 0
